@@ -74,6 +74,8 @@ type agentSpec struct {
 	Wiring    string   `json:"wiring"`     // "tool-calling" | "chat-model"
 	PipeModel bool     `json:"pipe_model"` // model streams through schema.Pipe from a goroutine, else FromArray
 	Runs      []string `json:"runs"`       // sequential runs on this one agent: "G" (Generate) / "S" (Stream)
+	// RunCtx: shape of the context of every run (ctx_test.go); empty = "plain"
+	RunCtx []string `json:"run_ctx,omitempty"`
 }
 
 type caseSpec struct {
@@ -86,6 +88,12 @@ type caseSpec struct {
 	Modifier       int         `json:"modifier"` // 0 = none
 	Agents         []agentSpec `json:"agents"`
 	Salt           uint64      `json:"salt"` // seeds tool-output chunkings
+
+	// sub-workloads (rd_test.go, ctx_test.go, overlap_test.go); all empty for the classic workload
+	Kind         string       `json:"kind,omitempty"`           // "" | "rd" | "ctx" | "overlap"
+	ToolChunkMax int          `json:"tool_chunk_max,omitempty"` // >0: streamable tools emit 2..max chunks
+	Ctx          *ctxSpec     `json:"ctx,omitempty"`            // constructor context + checker implementation
+	Overlap      *overlapSpec `json:"overlap,omitempty"`        // runs of ONE agent that overlap in time
 }
 
 func (c *caseSpec) digest() string {
@@ -147,17 +155,41 @@ func genArgs(r *mon.Rand) string {
 func generate(r *mon.Rand) *caseSpec {
 	c := &caseSpec{Salt: r.Uint64()}
 
+	// ---- tools, unknown-tools handler, return-directly set
+	callable, useGhost := genToolSet(r, c)
+
+	// ---- original messages
+	c.Input = genInput(r, callable, "")
+
+	// ---- script: 1..8 assistant messages, 0..3 tool calls each
+	c.Script = genScript(r, c, callable, useGhost, "", "")
+
+	// ---- step limit: MaxStep in {1..12, 0}; biased towards the boundary of what the script needs
+	c.MaxStep = genMaxStep(r, scriptNeed(c))
+
+	c.Modifier = 0
+	if r.Prob(0.5) {
+		c.Modifier = r.Range(1, 4)
+	}
+
+	// ---- the two checker configurations
+	c.Agents = genAgents(r, "first-chunk", "full-scan")
+	return c
+}
+
+// genToolSet: 1-4 tools, the unknown-tools handler and the return-directly set of c.
+func genToolSet(r *mon.Rand, c *caseSpec) (callable []string, useGhost bool) {
 	// ---- tools
 	nTools := r.Range(1, 4)
 	for i := 0; i < nTools; i++ {
 		c.Tools = append(c.Tools, toolSpec{Name: fmt.Sprintf("t%d", i), Kind: r.Intn(3)})
 	}
 	c.UnknownHandler = r.Prob(0.5)
-	callable := make([]string, 0, nTools+1)
+	callable = make([]string, 0, nTools+1)
 	for _, t := range c.Tools {
 		callable = append(callable, t.Name)
 	}
-	useGhost := r.Prob(0.08)
+	useGhost = r.Prob(0.08)
 	if r.Prob(0.55) {
 		// return-directly subset (non-empty)
 		for _, t := range c.Tools {
@@ -172,30 +204,13 @@ func generate(r *mon.Rand) *caseSpec {
 			c.ReturnDirectly = append(c.ReturnDirectly, mon.PickOne(r, callable))
 		}
 	}
+	return callable, useGhost
+}
 
-	// ---- original messages
-	nIn := r.Range(1, 4)
-	if r.Prob(0.04) {
-		nIn = 0
-	}
-	for i := 0; i < nIn; i++ {
-		switch {
-		case i == 0 && r.Prob(0.4):
-			c.Input = append(c.Input, msgSpec{Role: "system", Content: "sys " + r.Str(0, 8)})
-		case r.Prob(0.12) && i+1 < nIn:
-			// an earlier exchange of the conversation: assistant tool call + its tool result
-			id := "old" + r.Str(2, 4)
-			c.Input = append(c.Input, msgSpec{Role: "assistant", Content: genContent(r), Calls: []callSpec{{ID: id, Name: mon.PickOne(r, callable), Args: genArgs(r)}}})
-			c.Input = append(c.Input, msgSpec{Role: "tool", Content: "old result " + r.Str(0, 6), ToolCallID: id})
-			i++
-		case r.Prob(0.15):
-			c.Input = append(c.Input, msgSpec{Role: "assistant", Content: "earlier " + r.Str(0, 8)})
-		default:
-			c.Input = append(c.Input, msgSpec{Role: "user", Content: "q " + r.Str(0, 10), Name: mon.PickOne(r, []string{"", "", "", "bob"})})
-		}
-	}
-
-	// ---- script: 1..8 assistant messages, 0..3 tool calls each
+// genScript: 1..8 assistant messages, 0..3 tool calls each, over the tool and return-directly
+// set of c. contentTag / idTag mark the run the script belongs to (overlapping runs).
+func genScript(r *mon.Rand, c *caseSpec, callable []string, useGhost bool, contentTag, idTag string) []stepSpec {
+	var script []stepSpec
 	n := r.Range(1, 8)
 	neverStops := r.Prob(0.12)
 	reuseIDs := r.Prob(0.1)
@@ -207,6 +222,9 @@ func generate(r *mon.Rand) *caseSpec {
 		var s stepSpec
 		s.NoIndex = noIndex
 		s.Content = genContent(r)
+		if s.Content != "" {
+			s.Content = contentTag + s.Content
+		}
 		last := i == n-1
 		nc := 0
 		if !last || neverStops {
@@ -227,6 +245,7 @@ func generate(r *mon.Rand) *caseSpec {
 			if reuseIDs {
 				id = fmt.Sprintf("c_%d", j)
 			}
+			id = idTag + id
 			if emptyIDs {
 				id = ""
 			}
@@ -238,42 +257,71 @@ func generate(r *mon.Rand) *caseSpec {
 		}
 		s.ChunksA = genChunks(r, s, true)
 		s.ChunksB = genChunks(r, s, false)
-		c.Script = append(c.Script, s)
+		script = append(script, s)
 	}
+	return script
+}
 
-	// ---- step limit: MaxStep in {1..12, 0}; biased towards the boundary of what the script needs
-	need := scriptNeed(c)
+// genInput: 0-4 original messages; tag marks the run they belong to (overlapping runs get
+// different inputs so that a message of a foreign run is recognised).
+func genInput(r *mon.Rand, callable []string, tag string) []msgSpec {
+	var in []msgSpec
+	nIn := r.Range(1, 4)
+	if r.Prob(0.04) {
+		nIn = 0
+	}
+	for i := 0; i < nIn; i++ {
+		switch {
+		case i == 0 && r.Prob(0.4):
+			in = append(in, msgSpec{Role: "system", Content: tag + "sys " + r.Str(0, 8)})
+		case r.Prob(0.12) && i+1 < nIn:
+			// an earlier exchange of the conversation: assistant tool call + its tool result
+			id := "old" + r.Str(2, 4)
+			in = append(in, msgSpec{Role: "assistant", Content: tag + genContent(r), Calls: []callSpec{{ID: id, Name: mon.PickOne(r, callable), Args: genArgs(r)}}})
+			in = append(in, msgSpec{Role: "tool", Content: tag + "old result " + r.Str(0, 6), ToolCallID: id})
+			i++
+		case r.Prob(0.15):
+			in = append(in, msgSpec{Role: "assistant", Content: tag + "earlier " + r.Str(0, 8)})
+		default:
+			in = append(in, msgSpec{Role: "user", Content: tag + "q " + r.Str(0, 10), Name: mon.PickOne(r, []string{"", "", "", "bob"})})
+		}
+	}
+	return in
+}
+
+func genMaxStep(r *mon.Rand, need int) int {
 	switch x := r.Intn(100); {
 	case x < 35:
-		c.MaxStep = r.Range(1, 12)
+		return r.Range(1, 12)
 	case x < 65:
-		c.MaxStep = clamp(need+r.Range(-1, 1), 1, 12)
+		return clamp(need+r.Range(-1, 1), 1, 12)
 	case x < 80:
-		c.MaxStep = 0
+		return 0
 	default:
-		c.MaxStep = clamp(need+r.Range(0, 4), 1, 12)
+		return clamp(need+r.Range(0, 4), 1, 12)
 	}
+}
 
-	c.Modifier = 0
-	if r.Prob(0.5) {
-		c.Modifier = r.Range(1, 4)
-	}
+var runOrders = [][]string{{"G", "S"}, {"S", "G"}, {"G", "S", "G"}, {"S", "G", "S"}, {"S", "S", "G"}, {"G", "G", "S"}}
 
-	// ---- the two checker configurations
-	for _, ck := range []string{"first-chunk", "full-scan"} {
+func genAgents(r *mon.Rand, checkers ...string) []agentSpec {
+	var out []agentSpec
+	for _, ck := range checkers {
 		a := agentSpec{Checker: ck, ScanEarly: r.Prob(0.3), PipeModel: r.Bool()}
 		a.Wiring = mon.PickOne(r, []string{"tool-calling", "chat-model"})
-		a.Runs = mon.PickOne(r, [][]string{{"G", "S"}, {"S", "G"}, {"G", "S", "G"}, {"S", "G", "S"}, {"S", "S", "G"}, {"G", "G", "S"}})
-		c.Agents = append(c.Agents, a)
+		a.Runs = mon.PickOne(r, runOrders)
+		out = append(out, a)
 	}
-	return c
+	return out
 }
 
 // scriptNeed is a rough, generator-side estimate (2*tool rounds+1) used only to bias MaxStep;
 // the oracle does its own simulation.
-func scriptNeed(c *caseSpec) int {
+func scriptNeed(c *caseSpec) int { return scriptNeedOf(c, c.Script) }
+
+func scriptNeedOf(c *caseSpec, script []stepSpec) int {
 	rounds := 0
-	for _, s := range c.Script {
+	for _, s := range script {
 		if len(s.Calls) == 0 {
 			break
 		}
